@@ -207,6 +207,68 @@ def rule_g(ctx):
     c13.rule_e(ctx)
 
 
+INJ = "executor::mt_executor::injector::Injector::"
+
+
+def rule_j(ctx):
+    """the injector's `is_empty` hint is never `true` while a bucket is queued (else the last worker declares the pool idle with work left)"""
+    P = ctx.prog
+    n = 0
+    for nm in ("insert_task", "push_bucket", "pop_bucket"):
+        b = P.body(INJ + nm)
+        if b is None:
+            ctx.missing(INJ + nm)
+            continue
+        stores = [s for s in b.calls("^std::sync::atomic::Atomic::store$") if atomics.receiver_field(b, s) == "is_empty"]
+        guards = [i for i, l in enumerate(b.locals) if l["ty"].startswith("std::sync::MutexGuard<")]
+        for s in stores:
+            n += 1
+            held = any(b.all_defs(g) and b.must_hold(b.all_defs(g), K.guard_kill(b, g), s) for g in guards)
+            ctx.ob("injector|flag-written-under-lock|%s" % nm, held, "the emptiness flag is only written while the injector's mutex is held", [s])
+            val = s.args()[1].get("v")
+            conds = b.conditions(s)
+            if val is True:
+                ok = nm == "pop_bucket" and any(c.kind == "call" and c.data[0] == "std::vec::Vec::is_empty" and c.data[1] is True for c in conds)
+                pops = [x for x in b.calls("^std::vec::Vec::pop$")]
+                ok = ok and bool(pops) and all(b.dominates(x, s) for x in pops)
+                # the emptiness test is evaluated after the pop
+                ok = ok and all(b.dominates(pops[0], c.data[2]) for c in conds if c.kind == "call" and c.data[0] == "std::vec::Vec::is_empty")
+                ctx.ob("injector|empty-flag-set-only-when-drained", ok, "`is_empty = true` is stored only in pop_bucket, after the pop, when the vector is empty", [s])
+            elif val is False:
+                ctx.ob("injector|nonempty-flag|%s" % nm, nm in ("insert_task", "push_bucket"), "`is_empty = false` is stored by the inserting functions", [s])
+            else:
+                ctx.ob("injector|flag-value|%s" % nm, False, "the emptiness flag is stored with a non-constant value", [s])
+        if nm == "insert_task":
+            # when the queue was empty (first_mut() == None) the function cannot return without storing false
+            falses = [s for s in stores if s.args()[1].get("v") is False]
+            leak = False
+            found = False
+            for blk in sorted(b.live_blocks):
+                if b.blocks[blk]["term"]["t"] != "switch":
+                    continue
+                for tgt in b.succ[blk]:
+                    c = Cond(b, blk, tgt)
+                    if c.kind == "variant" and c.data[1] == {"None"} and not c.data[2] and any(x[2].endswith("first_mut") for o in c.data[0] for x in origin_calls(o)):
+                        found = True
+                        if b.path_exists_to_return(Site(b, tgt, -1), avoiding=falses):
+                            leak = True
+            ctx.ob("injector|insert-into-empty-clears-flag", found and not leak, "inserting into an empty injector always clears the emptiness flag before returning", falses)
+        if nm == "push_bucket":
+            falses = [s for s in stores if s.args()[1].get("v") is False]
+            pushes = list(b.calls("^std::vec::Vec::push$"))
+            ok = bool(falses) and bool(pushes)
+            for s in falses:
+                cs = [c for c in b.conditions(s) if c.kind == "call" and c.data[0] == "std::vec::Vec::is_empty" and c.data[1] is True]
+                ok = ok and bool(cs) and all(b.dominates(c.data[2], pushes[0]) for c in cs)
+            ctx.ob("injector|push-into-empty-clears-flag", ok, "pushing a bucket into an empty injector (emptiness sampled before the push) clears the flag", falses + pushes)
+    ctx.ob("floor|injector-flag-stores", n >= 3, "expected >= 3 stores of the injector's emptiness flag (found %d)" % n)
+    ie = P.body(INJ + "is_empty")
+    if ie is not None:
+        rets = K.ret_assigns(ie)
+        ok = bool(rets) and all(r.is_term and r.callee == "std::sync::atomic::Atomic::load" and atomics.receiver_field(ie, r) == "is_empty" for r in rets)
+        ctx.ob("injector|is-empty-reads-flag", ok, "Injector::is_empty returns the flag", rets)
+
+
 def rule_h(ctx):
     from . import bcast
     for w in ("output", "source"):
@@ -221,6 +283,7 @@ def rule_i(ctx):
     c05.recv_awaits_handler(ctx)
 
 RULES = [
+    ("C04.j", "the injector never looks empty while a bucket is queued", rule_j),
     ("C04.i", "a send completes only when enqueued; the receiver runs each handler to completion", rule_i),
     ("C04.h", "a broadcast neither resolves early nor stalls: counter, waker registration, slot reuse", rule_h),
     ("C04.a", "spawned work is run before Ok", rule_a),
